@@ -7,7 +7,7 @@ for p in C01 C02 C03 C04 C05 C06 C07 C08 C09 C10 C11 C12 C13 C14 C15 C16 C17 C18
   out=$(VERIF_SEED=$sd VERIF_EVIDENCE_DIR=$ev timeout 1200 ./vcheck $p --tier quick 2>&1)
   rc=$?
   echo "seed=$sd $p rc=$rc $(echo "$out" | grep -E 'evidence written' | sed 's/.*written: //' | cut -c1-120)"
-  if [ $rc -ne 0 ]; then echo "$out" | grep -E "^VIOLATION|^  |INFRA" | cut -c1-300 | head -5; fi
+  if [ $rc -ne 0 ]; then echo "$out" | grep -E -A12 "^VIOLATION|INFRA" | cut -c1-400 | head -40; fi
 done
 done
 rm -rf "$ev"
